@@ -38,6 +38,17 @@ Shift(S, d) == IF d \in DOMAIN Step THEN Translate(S, Step[d][1], Step[d][2]) EL
 ShiftSane(S, d) == /\ Cardinality(Shift(S, d)) <= Cardinality(S)
                    /\ d \in DOMAIN Step => Shift(S, d) \subseteq WordShift(S, d)
 
+\* internal consistency of this module (an ASSUME of BitTrace, evaluated once by TLC): every board translation is undone by
+\* the opposite one wherever it is defined, the king / knight steps from a square are exactly the squares at the right distance
+Dist(a, b) == LET df == FileOf(a) - FileOf(b)  dr == RankOf(a) - RankOf(b)
+              IN <<IF df < 0 THEN -df ELSE df, IF dr < 0 THEN -dr ELSE dr>>
+KingSteps == {8, -8, 1, -1, 9, 7, -7, -9}
+KnightSteps == {17, 15, -15, -17, 10, 6, -6, -10}
+BitSane ==
+  /\ \A s \in Sq, d \in DOMAIN Step : LET t == Shift({s}, d) IN t = {} \/ (Cardinality(t) = 1 /\ Shift(t, -d) = {s})
+  /\ \A s \in Sq : UNION {Shift({s}, d) : d \in KingSteps} = {t \in Sq : t # s /\ Dist(s, t)[1] <= 1 /\ Dist(s, t)[2] <= 1}
+  /\ \A s \in Sq : UNION {Shift({s}, d) : d \in KnightSteps} = {t \in Sq : Dist(s, t) \in {<<1, 2>>, <<2, 1>>}}
+
 RECURSIVE Ascending(_)
 Ascending(S) == IF S = {} THEN <<>>
                 ELSE LET m == CHOOSE x \in S : \A y \in S : x <= y IN <<m>> \o Ascending(S \ {m})
